@@ -45,8 +45,10 @@ func verifyAuthorizedKeys(user *user.User, authorizedKeysBytes []byte,
 	for len(authorizedKeysBytes) > 0 {
 		authorizedPubKey, _, _, restBytes, err := gossh.ParseAuthorizedKey(authorizedKeysBytes)
 		if err != nil {
-			return nil, fmt.Errorf("unable to parse authorized keys bytes|%s|%s",
-				user, err.Error())
+			// No further key in the remaining bytes (e.g. trailing comments or
+			// blank lines), the keys found so far still count.
+			dlog.Server.Debug(user, "No more authorized keys", err)
+			break
 		}
 		authorizedKeysMap[string(authorizedPubKey.Marshal())] = true
 		authorizedKeysBytes = restBytes
